@@ -834,6 +834,19 @@ pub fn emit_fmt(a: &Args, out: &mut Out) {
             }
         }
     }
+    // (1b) the text writer: its output is a function of the object (spec/TxtFormat.tla TxtWrite)
+    for o in &pool {
+        run += 1;
+        let r = js::guard(|| { let t = TextFormat::serialize(o); let d = TextFormat::deserialize(&t); (t, d) });
+        match r {
+            Err(()) => out.emit(json!({"ev": "Fmt", "kind": "txt", "run": run, "panic": 1, "input": [], "view": fmt_view_none(), "eq": 0})),
+            Ok((t, d)) => {
+                if t.len() > 2 * FMT_MAX { continue; }
+                out.emit(json!({"ev": "Fmt", "kind": "txt", "run": run, "panic": 0, "input": js::bytes(t.as_bytes()), "view": fmt_view(o),
+                                "eq": (d.as_ref() == Some(o)) as u8}));
+            }
+        }
+    }
     // (2) read
     let mut made = 0;
     while made < n {
